@@ -255,35 +255,48 @@ Definition is_xml_name (s : string) : bool :=
 (* ================================================================================================ keyed issues *)
 
 (** What the three de-duplications of the validator compare (they compare description text / object pairs):
-    [KUnitsName n]  "Model '..' contains multiple units with the name 'n'" (checkIssuesForDuplications);
+    [KUnitsName imp n]  "Model '..' contains multiple units with the name 'n'" (checkIssuesForDuplications); [imp]: the
+                        units being validated is an import, which decides the rule;
     [KImportDup url ref]  "... multiple imported units from 'url' with the same units_ref attribute 'ref'";
     [KCycle names]  the set of names of a reported units cycle (hasCycleAlreadyBeenReported);
-    [KPairI a b] / [KPairU a b]  the VariablePair lists of validateVariableInterface / validateEquivalenceUnits. *)
+    [KPairI a b] / [KPairU a b]  the VariablePair lists of validateVariableInterface / validateEquivalenceUnits.
+    An issue is either plain (always added) or keyed (added unless an earlier issue with a matching key exists); the
+    rule of a keyed issue is a function of its key. *)
 Inductive key :=
-| KNone | KUnitsName (n : string) | KImportDup (url ref : string) | KCycle (names : list string)
+| KUnitsName (imp : bool) (n : string) | KImportDup (url ref : string) | KCycle (names : list string)
 | KPairI (a b : nat) | KPairU (a b : nat).
-Definition rissue : Type := (vrule * key)%type.
-Definition plain (r : vrule) : rissue := (r, KNone).
+Inductive rissue := Plain (r : vrule) | Keyed (k : key).
+Definition key_rule (k : key) : vrule :=
+  match k with
+  | KUnitsName true _ => V_IMPORT_UNITS_NAME_UNIQUE
+  | KUnitsName false _ => V_UNITS_NAME_UNIQUE
+  | KImportDup _ _ => V_IMPORT_UNITS_UNITS_REFERENCE
+  | KCycle _ => V_UNIT_UNITS_CIRCULAR_REFERENCE
+  | KPairI _ _ | KPairU _ _ => V_MAP_VARIABLES_ELEMENT
+  end.
+Definition rule_of (i : rissue) : vrule := match i with Plain r => r | Keyed k => key_rule k end.
+Definition plain (r : vrule) : rissue := Plain r.
 Definition plains (l : list vrule) : list rissue := map plain l.
 
 Definition subset_str (a b : list string) : bool := forallb (fun x => str_in x b) a.
 (** does an issue keyed [k2], raised later, find the earlier issue keyed [k1]? *)
 Definition key_hits (k1 k2 : key) : bool :=
   match k1, k2 with
-  | KUnitsName a, KUnitsName b => String.eqb a b
+  | KUnitsName _ a, KUnitsName _ b => String.eqb a b
   | KImportDup u r, KImportDup u' r' => String.eqb u u' && String.eqb r r'
   | KCycle a, KCycle b => subset_str a b && subset_str b a
   | KPairI a b, KPairI a' b' => Nat.eqb a b' && Nat.eqb b a'      (* the reversed pair *)
   | KPairU a b, KPairU a' b' => Nat.eqb a b' && Nat.eqb b a'
   | _, _ => false
   end.
-(** the stream of issues as the checks raise them -> the issues actually added ([seen]: added so far, newest first) *)
-Fixpoint dedup_from (seen : list rissue) (l : list rissue) : list rissue :=
+(** the stream of issues as the checks raise them -> the issues actually added ([seen]: keys added so far) *)
+Fixpoint dedup_from (seen : list key) (l : list rissue) : list rissue :=
   match l with
   | [] => []
-  | i :: r =>
-      if existsb (fun j => key_hits (snd j) (snd i)) seen then dedup_from seen r
-      else i :: dedup_from (i :: seen) r
+  | Plain r :: t => Plain r :: dedup_from seen t
+  | Keyed k :: t =>
+      if existsb (fun j => key_hits j k) seen then dedup_from seen t
+      else Keyed k :: dedup_from (k :: seen) t
   end.
 Definition dedup (l : list rissue) : list rissue := dedup_from [] l.
 
@@ -419,8 +432,7 @@ Fixpoint validate_units (fuel : nat) (W : world) (mi : nat) (origin : bool) (his
     let h0 := mkEp name src (match u_imp u with Some (s, _) => is_url s | None => "" end) mi
                    (match u_imp u with Some (s, _) => is_model s | None => None end) in
     if local_cycle hist h0 then
-      [(V_UNIT_UNITS_CIRCULAR_REFERENCE,
-        if origin then KCycle (cycle_names (map ep_name hist) name) else KNone)]
+      [if origin then Keyed (KCycle (cycle_names (map ep_name hist) name)) else Plain V_UNIT_UNITS_CIRCULAR_REFERENCE]
     else
       let uref := match u_imp u with Some (_, r) => r | None => "" end in
       let uurl := match u_imp u with Some (s, _) => is_url s | None => "" end in
@@ -441,7 +453,7 @@ Fixpoint validate_units (fuel : nat) (W : world) (mi : nat) (origin : bool) (his
                       ++ validate_import_source s in
            plains i12
            ++ (match i12 with
-               | [] => if 1 <? cnt_imp then [(V_IMPORT_UNITS_UNITS_REFERENCE, KImportDup uurl uref)] else []
+               | [] => if 1 <? cnt_imp then [Keyed (KImportDup uurl uref)] else []
                | _ => []
                end)
            ++ (match is_model s with
@@ -457,7 +469,7 @@ Fixpoint validate_units (fuel : nat) (W : world) (mi : nat) (origin : bool) (his
        | None => []
        end)
       ++ (if 1 <? cnt_name
-          then [(if is_import_u u then V_IMPORT_UNITS_NAME_UNIQUE else V_UNITS_NAME_UNIQUE, KUnitsName name)]
+          then [Keyed (KUnitsName (is_import_u u) name)]
           else [])
       ++ plains (if negb (is_ident name)
                  then [if is_import_u u then V_IMPORT_UNITS_NAME_VALUE else V_UNITS_NAME_VALUE]
@@ -709,7 +721,7 @@ Section Connections.
     match interface_type_for (iface_required early L me (v_eqs v) false false) with
     | INone =>
         flat_map (fun e => match lookup_var L (e_to e) with
-                           | Some o => if reachable me o then [] else [(V_MAP_VARIABLES_ELEMENT, KPairI (v_tag v) (e_to e))]
+                           | Some o => if reachable me o then [] else [Keyed (KPairI (v_tag v) (e_to e))]
                            | None => []
                            end) (v_eqs v)
     | t => if contains (itype_string t) (v_iface v) then [] else [plain V_MAP_VARIABLES_ELEMENT]
@@ -729,7 +741,7 @@ Section Connections.
                                     | Some un2 =>
                                         match ueq W un un2 with
                                         | Some true => []
-                                        | Some false => [(V_MAP_VARIABLES_ELEMENT, KPairU (v_tag v) (e_to e))]
+                                        | Some false => [Keyed (KPairU (v_tag v) (e_to e))]
                                         | None => [plain V_NULL_DEREF]
                                         end
                                     end
@@ -940,7 +952,7 @@ Section Validate.
 
   (** Validator::validateModel(model 0 of the world): the issues, each (level, reference rule) *)
   Definition validate (W : world) : list (level * vrule) :=
-    map (fun i => (Error, fst i)) (dedup (validate_raw W)).
+    map (fun i => (Error, rule_of i)) (dedup (validate_raw W)).
 End Validate.
 
 (* ================================================================================================ instance *)
